@@ -591,3 +591,9 @@ Proof.
     + subst b. cbn [b_js snd]. apply IHx; exact A.
     + eapply IHxs; eauto.
 Qed.
+
+Lemma names_anchored (t : item) (i : id) : In i (ids_of t) -> In (KName i) (anchors_of (build t)).
+Proof. intros H. apply (proj1 ids_are_anchors). apply in_map. exact H. Qed.
+
+Lemma valid_shape_partial (t : item) : NoDup (ids_of t) -> build_raises t = false -> shape_ok (build t) = true.
+Proof. intros H _. apply (proj1 build_shape). exact H. Qed.
